@@ -192,11 +192,12 @@ def build_units_probes(b):
     return outdir
 
 # per-property multipliers of the case counts registered in props/*.cpp, calibrated so that a quick check executes for roughly 15-30 s
-# on 8 shards and a thorough one for roughly 5-12 min on 16 shards (bounded by case count, never by a clock)
+# on 8 shards and a thorough one for roughly 6-12 min on 16 shards including its libFuzzer campaign (bounded by case count, never by a clock;
+# measured after malloc_context_size=5 halved the run times)
 TIER_SCALE = {
-    'C01': (12, 6), 'C02': (15, 12), 'C03': (20, 20), 'C04': (3, 3), 'C05': (1.5, 2), 'C06': (5, 5), 'C07': (15, 15), 'C08': (20, 10),
-    'C09': (4, 1), 'C10': (2, 3), 'C11': (12, 8), 'C12': (1.5, 2), 'C13': (1, 1), 'C14': (1, 1), 'C15': (0.7, 1), 'C16': (15, 8),
-    'C17': (16, 10), 'C18': (1, 1), 'C19': (12, 8), 'C20': (20, 20),
+    'C01': (12, 30), 'C02': (15, 40), 'C03': (20, 30), 'C04': (3, 15), 'C05': (1.5, 2), 'C06': (5, 6), 'C07': (15, 40), 'C08': (20, 60),
+    'C09': (4, 1.3), 'C10': (2, 5), 'C11': (12, 18), 'C12': (1.5, 2.6), 'C13': (1, 0.4), 'C14': (1, 1), 'C15': (0.7, 1), 'C16': (15, 60),
+    'C17': (16, 35), 'C18': (1, 1), 'C19': (12, 30), 'C20': (20, 40),
 }
 
 FUZZ_CXX = 'clang++'
@@ -305,7 +306,10 @@ EXTRA_ENV = {}
 def san_env(rundir):
     env = dict(os.environ)
     env.update(EXTRA_ENV)
-    env['ASAN_OPTIONS'] = 'detect_leaks=0:abort_on_error=0:exitcode=99:log_path=%s/asan:allocator_may_return_null=1:detect_stack_use_after_return=0' % rundir
+    # malloc_context_size: ASan records a stack trace per allocation in a depot that is never freed; with the default depth of 30 frames and
+    # frame-pointer-less library code underneath, millions of distinct traces accumulate (5 GB per thorough shard, twice the run time); five
+    # frames identify the allocation site and keep a shard below 0.5 GB
+    env['ASAN_OPTIONS'] = 'detect_leaks=0:abort_on_error=0:exitcode=99:log_path=%s/asan:allocator_may_return_null=1:detect_stack_use_after_return=0:malloc_context_size=5' % rundir
     env['UBSAN_OPTIONS'] = 'print_stacktrace=1:exitcode=99:log_path=%s/ubsan' % rundir
     env['VERIF_DIR'] = VERIF
     env.pop('RC_PARAMS', None)
